@@ -56,6 +56,7 @@ def build(tier, seed):
     for xi in (0.0, 0.02):
         cases.append({'kind': 'seq', 'xi': xi, 'n': 1500 if quick else 4000, 'tier': tier})
     return {
+        'rule_more': 'two pool cases (xi = 0, 0.02) of requests that follow each other in one process / on one object: (dt, T) pairs that agree to six significant figures without being equal (0.01 vs 0.01(1+4e-7), 1/120 vs 0.00833333, 1/3 vs 0.333333) on a record of 1500 / 4000 samples, and one period array edited in place between requests (doubled, first entry set to 0 and to another period), each answer against the 40-digit solution',
         'cases': cases,
         'rule': 'all non-zero records over {-1,0,1} of length 2..%d (+ named long families hat/step/alternating, not counted as '
                 'exhaustive) x dt %s (one pool case per record x dt) x T/dt %s x xi %s x period-list shape {[T],[0,T],[T,2T,T/2]} x entry point '
